@@ -532,6 +532,9 @@ def leg_m(ctx):
     ctx.require_coverage(rh, ['MSet', 'MSetDefault', 'MDel', 'MPop', 'MUpdate', 'MUpdateFail', 'MClear', 'MCopy', 'MResolve'])
     if not q:
         ctx.tlc('MC_Handlers', 'MC_HandlersQ.cfg', timeout=1500, workers=16)
+        # the literal-key shortcut never leaves the keys of maximal positive quality, for every content type of the vocabulary
+        # in every reachable mapping (a universally quantified invariant: too slow under coverage statistics, hence its own run)
+        ctx.tlc('MC_Handlers', 'MC_HandlersD3S.cfg', timeout=1500, workers=8)
         # wrong designs must be caught by the model (vacuity of the invariants)
         for mod, cfg, inv in (('MC_MediaTypes', 'MC_MediaTypesW1.cfg', 'SpecificityOrder'),
                               ('MC_MediaTypes', 'MC_MediaTypesW2.cfg', 'BestIsFirstMax'),
